@@ -140,16 +140,20 @@ class FutureResult(object):
         self.__callback = None
         self.__extra = None
 
-    def __notify(self):
+        # Protects the callback registration against the end of execution
+        self.__lock = threading.Lock()
+
+    def __notify(self, callback, extra):
         """
         Notify the given callback about the result of the execution
+
+        :param callback: The method to call back (can be None)
+        :param extra: Extra parameter associated to the callback
         """
-        if self.__callback is not None:
+        if callback is not None:
             try:
-                self.__callback(
-                    self._done_event.data,
-                    self._done_event.exception,
-                    self.__extra,
+                callback(
+                    self._done_event.data, self._done_event.exception, extra
                 )
             except Exception as ex:
                 self._logger.exception("Error calling back method: %s", ex)
@@ -165,11 +169,14 @@ class FutureResult(object):
         :param method: The method to call back in the end of the execution
         :param extra: Extra parameter to be given to the callback method
         """
-        self.__callback = method
-        self.__extra = extra
-        if self._done_event.is_set():
+        with self.__lock:
+            self.__callback = method
+            self.__extra = extra
+            done = self._done_event.is_set()
+
+        if done:
             # The execution has already finished
-            self.__notify()
+            self.__notify(method, extra)
 
     def execute(self, method, args, kwargs):
         """
@@ -188,19 +195,26 @@ class FutureResult(object):
         if kwargs is None:
             kwargs = {}
 
+        callback = extra = None
         try:
             # Call the method
             result = method(*args, **kwargs)
         except Exception as ex:
             # Something went wrong: propagate to the event and to the caller
-            self._done_event.raise_exception(ex)
+            with self.__lock:
+                self._done_event.raise_exception(ex)
+                callback, extra = self.__callback, self.__extra
             raise
         else:
             # Store the result
-            self._done_event.set(result)
+            with self.__lock:
+                self._done_event.set(result)
+                callback, extra = self.__callback, self.__extra
         finally:
-            # In any case: notify the call back (if any)
-            self.__notify()
+            # In any case: notify the call back (if any) registered at the
+            # time the execution finished. Later ones are notified by
+            # set_callback()
+            self.__notify(callback, extra)
 
     def done(self):
         """
